@@ -552,6 +552,9 @@ func finish(m *Monitor, mg *merged, prop, tier string, seed int64, n int, start 
 	if m.Race {
 		cov["race_detector_reports"] = mg.raceReports
 	}
+	if mg.counters["distinct-set-capped"] > 0 {
+		cov["distinct_nontrivial_is_lower_bound"] = fmt.Sprintf("the per-child hash set is capped at %d entries; %d further non-trivial cases were not recorded", MaxDistinctPerChild, mg.counters["distinct-set-capped"])
+	}
 	if len(mg.notes) > 0 {
 		cov["notes"] = mg.notes
 	}
